@@ -273,6 +273,18 @@ def check_bins(prog, rep):
         if isinstance(e, ast.Name) and e.id in idefs and depth < 6 and e.id not in (st, sp, nh, B):
             return inline(idefs[e.id], depth + 1)
         return e
+    # a store through a local view of the output (`v = H[a:b]` bound once in either loop body, then `v[mask] = k`) is a store through H[a:b][mask]
+    nbind = {}
+    for s in ast.walk(outer):
+        if isinstance(s, (ast.Assign, ast.AugAssign, ast.For)):
+            for t_ in (s.targets if isinstance(s, ast.Assign) else [s.target]):
+                for n_ in ast.walk(t_):
+                    if isinstance(n_, ast.Name) and isinstance(n_.ctx, ast.Store):
+                        nbind[n_.id] = nbind.get(n_.id, 0) + 1
+    for s in inner.body:
+        if (isinstance(s, ast.Assign) and isinstance(s.targets[0], ast.Subscript) and isinstance(s.targets[0].value, ast.Name) and s.targets[0].value.id != H
+                and nbind.get(s.targets[0].value.id) == 1 and isinstance(idefs.get(s.targets[0].value.id), ast.Subscript) and dump(idefs[s.targets[0].value.id]).startswith(H + "[")):
+            s.targets[0] = ast.copy_location(ast.Subscript(value=idefs[s.targets[0].value.id], slice=s.targets[0].slice, ctx=ast.Store()), s.targets[0])
     store = [s for s in inner.body if isinstance(s, ast.Assign) and isinstance(s.targets[0], ast.Subscript)
              and dump(s.targets[0]).startswith(H)]
     if len(store) != 1:
